@@ -11,6 +11,14 @@ pub mod stdspecs {
     pub assume_specification<T>[ <T as core::convert::From<T>>::from ](t: T) -> (r: T)
         ensures r == t;
 
+    // ---- <[u8]>::to_vec copies the bytes ---------------------------------------------------------------------
+    pub assume_specification<T: Clone>[ <[T]>::to_vec ](s: &[T]) -> (r: Vec<T>)
+        ensures r@.len() == s@.len(), forall|i: int| 0 <= i < s@.len() ==> cloned::<T>(s@[i], #[trigger] r@[i]);
+    pub broadcast proof fn lemma_u8_cloned_eq(a: u8, b: u8)
+        requires #[trigger] cloned::<u8>(a, b)
+        ensures a == b
+    {}
+
     // ---- String::from_utf8_lossy / Cow<str> -> String ------------------------------------------------
     /// String::from_utf8_lossy as an uninterpreted function of the bytes
     pub uninterp spec fn lossy(b: Seq<u8>) -> Seq<char>;
@@ -58,7 +66,7 @@ pub mod stdspecs {
 
     /// a byte predicate closure that decides `x == c`
     pub open spec fn decides_eq<P: FnMut(&u8) -> bool>(p: P, c: u8) -> bool {
-        forall|x: u8, r: bool| call_ensures(p, (&x,), r) ==> r == (x == c)
+        forall|x: u8, r: bool| #[trigger] call_ensures(p, (&x,), r) ==> r == (x == c)
     }
 
     /// with such a predicate, one split step cuts at the first occurrence of c
@@ -75,10 +83,16 @@ pub mod stdspecs {
     /// broadcast form, for call chains where the predicate closure has no name
     pub broadcast proof fn lemma_split_cut<P: FnMut(&u8) -> bool>(p: P, s: Seq<u8>, k: int)
         requires #[trigger] split_step(p, s, k)
-        ensures forall|c: u8| decides_eq(p, c) ==> k == first_of(s, c, 0)
+        ensures forall|c: u8| #![trigger decides_eq(p, c)] #![trigger first_of(s, c, 0)] decides_eq(p, c) ==> k == first_of(s, c, 0)
     {
         assert forall|c: u8| decides_eq(p, c) implies k == first_of(s, c, 0) by { lemma_split_step_first_of(p, c, s, k); }
     }
+
+    /// element-wise form: no quantified hypothesis about the closure has to be established by the solver
+    pub broadcast proof fn lemma_split_cut2<P: FnMut(&u8) -> bool>(p: P, s: Seq<u8>, k: int, c: u8)
+        requires #[trigger] split_step(p, s, k), forall|j: int| 0 <= j < k ==> s[j] != c, k < s.len() ==> s[k] == c
+        ensures #[trigger] first_of(s, c, 0) == k
+    { lemma_first_of_is(s, c, 0, k); }
 
     pub proof fn lemma_first_of_is(s: Seq<u8>, c: u8, i: int, k: int)
         requires 0 <= i <= k <= s.len(), forall|j: int| i <= j < k ==> s[j] != c, k < s.len() ==> s[k] == c,
